@@ -1,5 +1,6 @@
 import ShexerModel.Lemmas.CandLemmas
 import ShexerModel.Lemmas.KeyLemmas
+import ShexerModel.Lemmas.SortLemmas
 /-! C12 — raising the acceptance threshold only removes constraints.
 
 The threshold enters the pipeline at exactly one place, the filter that turns profile entries into
@@ -67,7 +68,61 @@ theorem keys_monotone (c1 c2 : Config) (l1 l2 : List Stmt) (h1 : ∀ s ∈ l1, P
   unfold keyOf vclassOf
   rw [hprop]
 
+/-- **the figure kept for a key does not depend on which exact cardinalities survived**: with `keep_less_specific` (default) the
+statement that represents a group of candidates of one (property, value class) carries the count of the group's `+` candidate - the
+number of instances having the key - whether the group is `{1}, {2}, +`, `{1}, +` or `+` alone (in a "useless `+`" group the exact
+candidate has that same count).  Since `+` passes every threshold an exact candidate of the key passes (`candidate_survives_down`, its
+count is the largest), the figure of a surviving key - and the sum printed for `NONLITERAL`, `b.n + i.n` in `mergeGroup` - is the same at
+every threshold at which the key survives.  (Harness: NONLITERAL figures are compared across thresholds under this switch.) -/
+theorem kept_figure_is_the_plus_figure (cfg : Config) (hk : cfg.keepLessSpecific = true) (g : List Stmt) (m : Nat)
+    (hex : ∃ s ∈ g, s.card = Card.plus)
+    (hall : ∀ s ∈ g, s.card = Card.plus → s.n = m) :
+    (decideBest cfg g).n = m := by
+  unfold decideBest
+  split
+  · -- useless positive closure: two statements of equal count, exactly one of them `+`
+    rename_i hu
+    have hu2 := (Bool.and_eq_true _ _).mp hu |>.2
+    unfold uselessPlus at hu2
+    split at hu2
+    · rename_i a b
+      have hn : a.n = b.n := by
+        have := (Bool.and_eq_true _ _).mp hu2 |>.1
+        exact of_decide_eq_true (by simpa using this) 
+      have hx := (Bool.and_eq_true _ _).mp hu2 |>.2
+      by_cases ha : a.card = Card.plus
+      · have hb : b.card ≠ Card.plus := by
+          intro hb; simp [ha, hb] at hx
+        have : a.n = m := hall a (by simp) ha
+        have h1 : (a.card != Card.plus) = false := by simp [ha]
+        have h2 : (b.card != Card.plus) = true := by simp [hb]
+        simp only [List.find?, h1, h2, Option.getD]
+        omega
+      · have hb : b.card = Card.plus := by
+          obtain ⟨s, hs, hc⟩ := hex
+          simp at hs
+          rcases hs with rfl | rfl
+          · exact absurd hc ha
+          · exact hc
+        have : b.n = m := hall b (by simp) hb
+        have h1 : (a.card != Card.plus) = true := by simp [ha]
+        simp only [List.find?, h1, Option.getD]
+        omega
+    · exact absurd hu2 (by simp)
+  · obtain ⟨s, hs, hc⟩ := hex
+    have hsome : ((sortDesc g).find? fun s => s.card == Card.plus).isSome = true := by
+      rw [List.find?_isSome]
+      exact ⟨s, (Shexer.mem_sortDesc g s).mpr hs, by simp [hc]⟩
+    obtain ⟨r, hr⟩ := Option.isSome_iff_exists.mp hsome
+    have hrm := List.mem_of_find?_eq_some hr
+    have hrc := List.find?_some hr
+    simp only [hr, Option.orElse, Option.getD]
+    exact hall r ((Shexer.mem_sortDesc g r).mp hrm) (by simpa using hrc)
+
+
 /- non-vacuity -/
 example : ThresholdLe { thNum := 1, thDen := 3 } { thNum := 1, thDen := 2 } := by unfold ThresholdLe; decide
+example : (decideBest {} [{ prop := "p", types := ["IRI"], card := Card.exact 1, n := 6 }, { prop := "p", types := ["IRI"], card := Card.plus, n := 10 }]).n = 10 := by
+  decide +kernel
 
 end Shexer.C12
